@@ -231,6 +231,13 @@ func glueBundle(r *Rng, n int, st *Stats) {
 	hist := map[string]int{}
 	for i := 0; i < n; i++ {
 		files := genImportGraph(r, hist)
+		if i == 2 {
+			// fixed corpus: the known finding C12-O (layered import treated as redundant)
+			files = []impFile{
+				{pre: "@layer lc, la;\n", imports: []impRef{{target: 1, layer: "layer(la)"}, {target: 1}}, body: "@layer lc { a { color: gold } }\n"},
+				{body: "@layer lc { a { color: blue } }\n"},
+			}
+		}
 		if i == 1 {
 			// fixed corpus (must pass): cross-file duplicate removal must keep the first "@layer a{}" wrapper
 			files = []impFile{
@@ -295,7 +302,7 @@ func glueBundle(r *Rng, n int, st *Stats) {
 		inItems := flattenSheet(parseSheet(inlined))
 		outItems := flattenSheet(parseSheet(out))
 		d := genDOM(r)
-		if i < 2 {
+		if i < 3 {
 			d = boxDOM()
 		}
 		what, detail := compareCascade(d, inItems, outItems, nil, r, st)
@@ -311,6 +318,25 @@ func glueBundle(r *Rng, n int, st *Stats) {
 					for _, im := range f.imports {
 						if im.layer == "layer" && len(files[im.target].imports) > 0 {
 							desc["scenario"] = "anonymous-layer-import-split-per-file"
+						}
+					}
+				}
+				// known finding C12-O: an earlier import under layer(...) is treated as redundant to a
+				// later copy without that layer although the file's own @layer rules then live in other layers
+				if _, tagged := desc["scenario"]; !tagged {
+					count := map[int]int{}
+					layered := map[int]bool{}
+					for _, f := range files {
+						for _, im := range f.imports {
+							count[im.target]++
+							if im.layer != "" {
+								layered[im.target] = true
+							}
+						}
+					}
+					for t, c := range count {
+						if c >= 2 && layered[t] && strings.Contains(inlineImports(files, t, nil), "@layer") {
+							desc["scenario"] = "layered-import-treated-as-redundant"
 						}
 					}
 				}
